@@ -998,6 +998,12 @@ class WCS(object):
         return matrix, count, order
 
     def ExtractSIPCoeffs(self, wcs, prefix):
+        dinfo = _ap["-TAN-SIP"]
+        inverse_prefixes = [dinfo["apprefix"], dinfo["bpprefix"]]
+        if prefix in inverse_prefixes and (prefix + "_order") not in wcs:
+            # AP_ORDER/BP_ORDER and the inverse polynomial are optional
+            # in the SIP convention; it is fitted when first needed
+            return np.zeros((1, 1), dtype="f8"), 0, 0
         order = _dict_get(wcs, prefix + "_order")
         matrix = np.zeros((order + 1, order + 1), dtype="f8")
         count = 0
